@@ -236,6 +236,9 @@ func c15randOp(r *rand.Rand, p *c15pool, dom int) c15op {
 	switch r.Intn(8) {
 	case 0:
 		n := r.Intn(6)
+		if dom >= 20 {
+			n = r.Intn(30)
+		}
 		var vals []int
 		for i := 0; i < n; i++ {
 			vals = append(vals, c15val(r, dom))
@@ -269,6 +272,9 @@ func c15exec(j run.Job, a *run.Acc) {
 		r := rand.New(rand.NewSource(j.Seed))
 		for it := 0; it < j.N; it++ {
 			dom := 3 + r.Intn(6)
+			if r.Intn(5) == 0 {
+				dom = 20 + r.Intn(40) // large sets from time to time (code paths that depend on the sizes of the operands)
+			}
 			steps := 4 + r.Intn(16)
 			if !a.Begin() {
 				// consume the same random numbers
